@@ -4,4 +4,5 @@ from ._write_common import run_common
 
 def run(ctx):
     q = ctx.tier == "quick"
-    run_common(ctx, "C11", ["SfProps.C11", "SfProps.C04Caf", "SfProps.C04W64", "SfProps.C04Aiff"], stride=2 if q else 1, l1_scripts=250 if q else 2500)
+    run_common(ctx, "C11", ["SfProps.C11", "SfProps.C04Caf", "SfProps.C04W64", "SfProps.C04Aiff", "SfProps.C04Wavex", "SfProps.C04Rf64"], stride=2 if q else 1, l1_scripts=250 if q else 2500)
+    run_common(ctx, "C11", ["SfProps.C11", "SfProps.C04Caf", "SfProps.C04W64", "SfProps.C04Aiff", "SfProps.C04Htk", "SfProps.C04Wve", "SfProps.C04Mpc2k", "SfProps.C04Pvf", "SfProps.C04Mat4"], stride=2 if q else 1, l1_scripts=250 if q else 2500)
